@@ -494,24 +494,37 @@ def s_lock_scenario(draw):
 def s_long_chain(draw):
     """chains a few hundred headers long (indices and lengths beyond one byte / beyond 256): delivered in a few large
     batches, a lock near index 256, then a heavier fork close to the tip, then everything again"""
-    L = draw(st.sampled_from([250, 254, 255, 256, 257, 258, 300]))
-    forest = [[i, 1] for i in range(L)]
-    at = L - draw(st.integers(1, 4))
+    deep = draw(st.integers(0, 2)) == 0
+    if deep:
+        # a reorganisation many blocks deep: the two branches part below a delivered header (not the anchor) and are each
+        # 33 .. 90 headers long, the new one one header longer or heavier by one unit
+        stem = draw(st.sampled_from([1, 1, 2, 5, 40]))
+        old = draw(st.one_of(st.integers(30, 90), st.sampled_from([31, 32, 33, 34, 36, 37, 42, 45, 54, 61, 63, 64, 65, 78, 79])))
+        L = stem + old
+        forest = [[i, 1] for i in range(L)]
+        at = stem
+        flen = old + draw(st.sampled_from([1, 1, 2, 0]))
+    else:
+        L = draw(st.sampled_from([250, 254, 255, 256, 257, 258, 300]))
+        forest = [[i, 1] for i in range(L)]
+        at = L - draw(st.integers(1, 4))
+        flen = draw(st.integers(2, 6))
     parent = at
     fork = []
-    for _j in range(draw(st.integers(2, 6))):
-        forest.append([parent, draw(st.integers(1, 2))])
+    for _j in range(flen):
+        forest.append([parent, draw(st.integers(1, 2)) if not deep else (2 if _j == 0 else 1)])
         parent = len(forest)
         fork.append(parent)
     n = len(forest)
     labels = list(range(1, n + 1))
-    cut = draw(st.integers(100, L - 5))
+    cut = draw(st.integers(100, L - 5)) if L > 110 else draw(st.integers(1, L - 1))
     main = list(range(1, L + 1))
     if draw(st.booleans()):
         ops = [["d", main[:cut]], ["d", main[cut:]]]
     else:
         ops = [["d", main[cut:]], ["d", main[:cut]]]          # the tail arrives first, as orphans
-    ops.append(["l", draw(st.sampled_from([253, 254, 255, 256, 257, 258, L - 6]))])
+    if not deep:
+        ops.append(["l", draw(st.sampled_from([253, 254, 255, 256, 257, 258, L - 6]))])
     ops.append(["d", fork] if draw(st.booleans()) else ["d", fork[::-1]])
     if draw(st.booleans()):
         ops.append(["dunlocked"])
@@ -519,10 +532,11 @@ def s_long_chain(draw):
 
 
 SUBCHECKS = [
-    SubCheck("long_chains", o_history, strategy=s_long_chain, budget=(48, 2000), nontrivial=nt_history,
+    SubCheck("long_chains", o_history, strategy=s_long_chain, budget=(96, 3000), nontrivial=nt_history,
              rule="a main chain of 250-300 unit-weight headers delivered in two large batches (in order, or the tail first as orphans), "
                   "lock_to_index at 253..258, then a 2-6 header fork of weight 1-2 per header starting 1-4 headers below the tip; the "
-                  "same invariants after every operation (indices, lengths and batch sizes beyond 256)"),
+                  "same invariants after every operation (indices, lengths and batch sizes beyond 256); one case in three is instead a deep "
+                  "reorganisation: a 1-40 header stem, then two branches of 30-91 headers each, the later one heavier"),
     SubCheck("lock_then_extend", o_history, strategy=s_lock_scenario, budget=(3000, 100000), nontrivial=nt_history,
              rule="a main chain of 3-8 headers with 1-3 forks (weights 1-4): everything but the last 1-3 main-chain headers (and "
                   "up to 2 fork headers) is delivered, a prefix is locked, then the held-back headers arrive one per batch; same "
